@@ -24,6 +24,9 @@ var (
 	v6a = net.ParseIP("2001:db8::1")
 	v6b = net.ParseIP("2001:db8::2")
 	v6h = net.ParseIP("2001:db8::77")
+	// a 16-byte IPv4-mapped address (what an AAAA record or an ipv6hint with ::ffff:192.0.2.1 decodes to): an IPv6-family
+	// value whose unmapped form equals v4a
+	v6m = net.ParseIP("::ffff:192.0.2.1").To16()
 )
 
 // recSpec is the abstract description of one HTTPS record (the model's input).
@@ -60,10 +63,17 @@ type world struct {
 	Stop    int       `json:"stop_after"` // -1 = never
 }
 
-var addrDomain = [][]net.IP{nil, {v4a}, {v6a}, {v4a, v6a}, {v4a, v4a, v4b}}
+var addrDomain = [][]net.IP{nil, {v4a}, {v6a}, {v4a, v6a}, {v4a, v4a, v4b},
+	// only used by the mapped-address family (indexes 5..7)
+	{v6m}, {v6m, v4a}, {v4a, v6m, v6a}}
+
+const plainAddrDomain = 5
 
 // Additional for target "t1" (t2 never has an entry)
-var addlDomain = [][]net.IP{{v4a, v6b}, {v4b}, {}}
+var addlDomain = [][]net.IP{{v4a, v6b}, {v4b}, {},
+	{v6m, v4a}} // mapped-address family only
+
+const plainAddlDomain = 3
 
 const sentinel = "SENTINEL-spare-capacity"
 
@@ -238,8 +248,12 @@ func reference(w world, hintsForEmptyTarget bool) []tgt {
 }
 
 func collect(r ech.ResolveResult, network string, stop int) (got []tgt, callsAfterStop int) {
+	return collectSeq(r.Targets(network), stop)
+}
+
+func collectSeq(seq func(func(ech.Target) bool), stop int) (got []tgt, callsAfterStop int) {
 	stopped := false
-	r.Targets(network)(func(t ech.Target) bool {
+	seq(func(t ech.Target) bool {
 		if stopped {
 			callsAfterStop++
 			return false
@@ -271,6 +285,30 @@ func evalWorld(r *ev.Run, w world) {
 	}
 	if !reflect.DeepEqual(got, got2) {
 		r.Violation("impure:two-enumerations-differ", fmt.Sprintf("two successive enumerations differ: %v vs %v", got, got2), w)
+	}
+	// the SAME sequence value ranged over twice (a caller that keeps the iterator, e.g. to retry) gives the same targets
+	seq := res.Targets(w.Network)
+	s1, _ := collectSeq(seq, w.Stop)
+	s2, _ := collectSeq(seq, w.Stop)
+	if !reflect.DeepEqual(s1, got) || !reflect.DeepEqual(s2, got) {
+		r.Violation("impure:same-sequence-ranged-twice", fmt.Sprintf("ranging twice over one value returned by Targets gives %v then %v (a fresh call gives %v)", s1, s2, got), w)
+	}
+	// every yielded address is of the requested family, in the form the result holds it (16-byte values stay IPv6)
+	for _, g := range got {
+		ap, err := netip.ParseAddrPort(g.Addr)
+		if err != nil {
+			continue
+		}
+		switch w.Network {
+		case "tcp4", "udp4":
+			if !ap.Addr().Is4() {
+				r.Violation("wrong-family:"+w.Network, fmt.Sprintf("network %s but target %s", w.Network, g.Addr), w)
+			}
+		case "tcp6", "udp6":
+			if !ap.Addr().Is6() {
+				r.Violation("wrong-family:"+w.Network, fmt.Sprintf("network %s but target %s (an IPv4 address; a 16-byte IPv4-mapped value must stay an IPv6 address)", w.Network, g.Addr), w)
+			}
+		}
 	}
 	if after > 0 {
 		r.Violation("yield-after-stop", "yield called again after it returned false", w)
@@ -320,10 +358,10 @@ func evalWorld(r *ev.Run, w world) {
 }
 
 func Run(r *ev.Run) {
-	r.Rule("E1 exhaustive: all ResolveResults with 1 HTTPS record over the full per-record domain (priority{0,1,2} x target{'',t1,t2} x port{0,8443,80} x hints{none,v4,v6,both} x ECH{nil,e1} x 6 ALPN shapes incl. spare capacity), and with 0, 2 and 3 records over a reduced per-record domain, x 5 Address lists x 3 Additional maps x Port{80,443,8443} x 6 networks x early termination after {never,0,1,2} yields; each compared with a reference function, with a byte-level snapshot (incl. spare capacity) before/after. distinct = distinct worlds yielding >=1 target")
+	r.Rule("E1 exhaustive: all ResolveResults with 1 HTTPS record over the full per-record domain (priority{0,1,2} x target{'',t1,t2} x port{0,8443,80} x hints{none,v4,v6,both} x ECH{nil,e1} x 6 ALPN shapes incl. spare capacity), and with 0, 2 and 3 records over a reduced per-record domain, x 5 Address lists x 3 Additional maps x Port{80,443,8443} x 6 networks x early termination after {never,0,1,2} yields, plus a family with 16-byte IPv4-mapped addresses next to their 4-byte twins; each enumerated by two fresh calls and twice over one kept sequence value, compared with a reference function, with a byte-level snapshot (incl. spare capacity) before/after. distinct = distinct worlds yielding >=1 target")
 	r.Assume("reference function in checks/c15 written from the property text and RFC 9460 is correct",
 		"ALPN compared as a set; a record whose target has no known address may contribute nothing or its hints (the property leaves that open)",
-		"addresses are 4-byte IPv4 or 16-byte non-mapped IPv6")
+		"addresses are 4-byte IPv4 or 16-byte IPv6; a 16-byte IPv4-mapped value counts as IPv6 (it is what an AAAA record carried) and is distinct from its 4-byte twin")
 
 	var worlds []func(i int) world
 	var sizes []int
@@ -334,7 +372,7 @@ func Run(r *ev.Run) {
 	// family 1: one record, full domain
 	targets := []string{"", "t1", "t2"}
 	recPorts := []int{0, 8443, 80}
-	p1 := enum.Product{3, 3, len(recPorts), 4, 2, len(alpnDomain), len(addrDomain), len(addlDomain), len(ports), len(networks), len(stops)}
+	p1 := enum.Product{3, 3, len(recPorts), 4, 2, len(alpnDomain), plainAddrDomain, plainAddlDomain, len(ports), len(networks), len(stops)}
 	worlds = append(worlds, func(i int) world {
 		d := p1.Decode(i)
 		return world{Recs: []recSpec{{d[0], targets[d[1]], recPorts[d[2]], d[3], d[4], d[5]}}, Addr: d[6], Addl: d[7], Port: ports[d[8]], Network: networks[d[9]], Stop: stops[d[10]]}
@@ -342,7 +380,7 @@ func Run(r *ev.Run) {
 	sizes = append(sizes, p1.Size())
 
 	// family 0: no record
-	p0 := enum.Product{len(addrDomain), len(ports), len(networks), len(stops)}
+	p0 := enum.Product{plainAddrDomain, len(ports), len(networks), len(stops)}
 	worlds = append(worlds, func(i int) world {
 		d := p0.Decode(i)
 		return world{Addr: d[0], Port: ports[d[1]], Network: networks[d[2]], Stop: stops[d[3]]}
@@ -410,6 +448,14 @@ func Run(r *ev.Run) {
 		})
 		sizes = append(sizes, dims.Size())
 	}
+
+	// family M: IPv4-mapped 16-byte addresses in Address / Additional next to their 4-byte twins (one record, reduced domain)
+	pm := enum.Product{2, 2, 2, 3, 2, len(ports), len(networks), len(stops)}
+	worlds = append(worlds, func(i int) world {
+		d := pm.Decode(i)
+		return world{Recs: []recSpec{{1 + d[0], targets[d[1]], 0, 0, d[2], 1}}, Addr: plainAddrDomain + d[3], Addl: []int{3, 2}[d[4]], Port: ports[d[5]], Network: networks[d[6]], Stop: stops[d[7]]}
+	})
+	sizes = append(sizes, pm.Size())
 
 	for f := range worlds {
 		f := f
